@@ -65,8 +65,33 @@ fn scen(i: u64, r: &mut Rng, c: &Ctx) -> CaseOut {
     }
 }
 
+/// TCP sender against a peer that closes its window and then falls silent, with user timeout
+/// and/or keep-alive configured (sim/tcp_peer.rs::run_silent_zero_window).  Only the probe's
+/// verdicts count; the scripted peer's own oracles belong to C02/C04/C05/C17.
+fn tcp_silent(_i: u64, r: &mut Rng, _c: &Ctx) -> CaseOut {
+    use crate::sim::tcp_peer::{random_cfg, PeerSim};
+    let seed = r.next_u64();
+    let mut cfg = random_cfg(r, 2);
+    cfg.stingy = true;
+    cfg.sock_total = r.range(1, 20_000);
+    cfg.timeout_ms = *r.pick(&[None, Some(500u64), Some(2_000), Some(5_000), Some(5_000), Some(12_000), Some(30_000), Some(100_000)]);
+    cfg.keep_alive_ms = *r.pick(&[None, None, Some(500u64), Some(5_000), Some(75_000)]);
+    let tag = r.next_u64();
+    let (polls, mut out) = hostprobe::with_probes("tcp-silent", seed, || {
+        let mut sim = PeerSim::new(cfg.clone(), tag);
+        sim.run_silent_zero_window(r)
+    });
+    out.count("runs_tcp-silent", 1);
+    out.count("tcp_silent_timer_polls", polls);
+    if cfg.timeout_ms.is_some() {
+        out.count("tcp_silent_runs_with_user_timeout", 1);
+    }
+    out
+}
+
 pub fn parts() -> Vec<super::Part> {
     vec![
+        super::Part { name: "tcp-silent", cases: |c| c.n(4_000, 100_000), f: tcp_silent },
         super::Part { name: "dgram", cases: |c| c.n(6_000, 200_000), f: dgram },
         super::Part { name: "frag", cases: |c| c.n(6_000, 200_000), f: frag },
         super::Part { name: "neigh", cases: |c| c.n(2_000, 60_000), f: neigh },
